@@ -349,9 +349,8 @@ def gen_formula(rng, w, scope, depth=2, width=3, forall=True, top=True, nested_n
 
 
 def gen_forall(rng, w, scope, depth=1, numeric=True, equality=True, **kw):
-    # the quantified type never has a constant as inhabitant (DESIGN 1.2)
-    tys = [t for t in w.type_names() if w.things_of(t, with_constants=False)
-           and not any(w.subtype(ct, t) for ct in w.constants.values())]
+    # the quantified type has at least one problem object; domain constants of the type are in its range as well
+    tys = [t for t in w.type_names() if w.things_of(t, with_constants=False)]
     if not tys:
         return None
     ty = rng.choice(tys)
@@ -406,8 +405,7 @@ def gen_effect(rng, w, scope, when=True, forall=True, numeric=True, n=None, **kw
             if cond and effs:
                 out.append(["when", cond, effs[0] if len(effs) == 1 and rng.random() < 0.5 else ["and"] + effs])
         elif forall and r < 0.4 and w.type_names():
-            tys = [t for t in w.type_names() if w.things_of(t, with_constants=False)
-                   and not any(w.subtype(ct, t) for ct in w.constants.values())]
+            tys = [t for t in w.type_names() if w.things_of(t, with_constants=False)]
             if not tys:
                 continue
             ty = rng.choice(tys)
